@@ -10,13 +10,13 @@ CHECKS = {
     "C01": dict(
         level="exploration",
         technique=KTECH,
-        text="For each configuration (data set of 1-3 points, plus four exchangeable points traversed through one start state per orbit of the symmetric group (24 of 243 states); alpha; 3 proposals; N; threshold; outlier probability; run-command wiring and library wiring) every outcome of every draw of ParticleGibbsTreeSampler.sample_tree is traversed on the real code from every start tree, giving the exact kernel K; rows must sum to 1, stay in the state space, and max|pi K - pi| <= 1e-9 with pi = exp(log_p_one). Exact per configuration (residuals where it holds are ~1e-16, defects found were 1e-5..5e-2); configurations are a fixed cross plus seeded random ones, so this is exploration, not proof.",
+        text="For each configuration (data set of 1-3 points, plus four exchangeable points traversed through one start state per orbit of the symmetric group (24 of 243 states); alpha; 3 proposals; N; threshold; outlier probability; run-command wiring and library wiring) every outcome of every draw of ParticleGibbsTreeSampler.sample_tree is traversed on the real code from every start tree, giving the exact kernel K; rows must sum to 1, stay in the state space, and max|pi K - pi| <= 1e-9 with pi = exp(log_p_one). Exact per configuration (residuals where it holds are ~1e-16, defects found were 1e-5..5e-2); configurations are a fixed cross plus seeded random ones, so this is exploration, not proof. Also: exact kernels with 5-12 particles on 1-2 points; sampled invariance (refute-only, alarm at a 1e-9 tail) with 30 particles on three and 40-80 particles on four to five all-different data points, with a second statistic over (clones, outliers) classes.",
         note="pi is built from the code's own log_p_one (C03 judges that value). Trusts the simulated generator's outcome probabilities (self-tested) and leaf purity (all memo caches cleared per leaf). Sizes beyond n=4 / N=4 are not traversed exactly; sampled paths with n=4..7, N<=10 carry path-local oracles only (retained particle in slot 0, swarm size, finite weights, result in support).",
         ref="4 (C01)"),
     "C04": dict(
         level="exploration",
         technique=KTECH,
-        text="Same exact-kernel machine applied to DataPointSampler (outlier option on/off, n<=4, thorough 5), PruneRegraphSampler (n<=4, thorough 5), ParticleGibbsSubtreeSampler (3 proposals, both wirings, n<=3, thorough 4) and one real iteration of run._run_main_sampler (n<=2, one n=3). Each move has its own residual and key; the subtree move's bias is a recorded finding identified by pinned exact residuals.",
+        text="Same exact-kernel machine applied to DataPointSampler (outlier option on/off, n<=4, thorough 5), PruneRegraphSampler (n<=4, thorough 5), ParticleGibbsSubtreeSampler (3 proposals, both wirings, n<=3, thorough 4) and one real iteration of run._run_main_sampler (n<=2, one n=3). Each move has its own residual and key; the subtree move's bias is a recorded finding identified by pinned exact residuals. Also: exact balance sum_x pi(x)K(x,y) = pi(y) at single target trees of 12-24 clones for prune-regraft (predecessors from the reference model, K(x,.) complete outcome trees of the real move, non-exchangeable data); orbit-lumped exact kernels on closed classes of 6-8 exchangeable points.",
         note="Same trusted base as C01. Known finding C04-subtree-move-not-invariant suppresses only invariance failures of op=subtree (and sweeps using it); its pinned configurations must keep their recorded residuals.",
         ref="4 (C04)"),
     "C03": dict(
@@ -28,7 +28,7 @@ CHECKS = {
     "C06": dict(
         level="exploration",
         technique="deterministic simulation of seeded edit histories with persistence faults (restore from dict/pickle/gzip/copy/TreeHolder at arbitrary steps); per-step comparison with a from-scratch rebuild; real sampler chains under a Tree monitor",
-        text="After every operation of thousands of seeded histories (placements, data-point moves, prune-regraft, subtree replacement, relabel, restores) every clone's log_p/log_r, the root vector and both joint densities equal those of a tree rebuilt from the reference forest (observed max difference ~3e-14, tolerance 1e-8); real run_phyclone_chain workloads are monitored at outermost Tree calls with sampled rebuilds.",
+        text="After every operation of thousands of seeded histories (placements, data-point moves, prune-regraft, subtree replacement, relabel, restores) every clone's log_p/log_r, the root vector and both joint densities equal those of a tree rebuilt from the reference forest (observed max difference ~3e-14, tolerance 1e-8); real run_phyclone_chain workloads are monitored at outermost Tree calls with sampled rebuilds. The rebuild runs with the memoised recursion functions replaced by their undecorated originals; a separate batch of histories uses 12-60 data points; samples may sit at levels hundreds of nats apart; concentration 1e-10..1e7.",
         note="Histories are restricted to the grammar the samplers use. Reads per-node arrays through Tree._graph (read only).",
         ref="4 (C06), 4.A"),
     "C07": dict(
@@ -71,13 +71,13 @@ CHECKS.update({
     "C15": dict(
         level="exploration",
         technique="(a) seeded edit histories with restore-from-image faults and twin execution; (b) " + PIPE,
-        text="(a) thousands of histories with restores (dict, pickle, gzip stream, copy, TreeHolder) at arbitrary steps incl. trees with index holes and outlier-only trees: restored tree equals the original in clades, outliers, labels, per-clone vectors, densities, and stays equal under all later edits. (b) hundreds of simulated runs with scheduler-chosen time-limit expiry: entries restore to well-formed complete trees, log_p_one recomputed under the recorded alpha matches, first entry is the post-burn-in tree, iteration labels are exactly the multiples of thin among the executed iterations.",
+        text="(a) thousands of histories with restores (dict, pickle, gzip stream, copy, TreeHolder) at arbitrary steps incl. trees with index holes and outlier-only trees: restored tree equals the original in clades, outliers, labels, per-clone vectors, densities, and stays equal under all later edits. (b) hundreds of simulated runs with scheduler-chosen time-limit expiry: entries restore to well-formed complete trees, log_p_one recomputed under the recorded alpha matches, first entry is the post-burn-in tree, iteration labels are exactly the multiples of thin among the executed iterations. Every stored image is restored a second time (sibling without edits) and again after every later operation: it must keep giving the stored tree (durable state).",
         note="After later edits node names of twin and restored tree may differ (relabel order follows edge insertion order); names are compared at the round trip only. Which iteration the time limit stops at is observed, not prescribed.",
         ref="4 (C15)"),
     "C19": dict(
         level="exploration",
         technique=PIPE,
-        text="1600 (thorough 60 000) simulated runs over generated input tables (1-8 mutations, 1-3 samples, clustered or not, identical and zero-depth rows) with options drawn boundary-biased from what the CLI accepts (1 particle, threshold 0/1, outlier probability up to 1.0, subtree probability 1, 1 iteration, chains 1-3), a quarter through the click command: no exception may escape, every entry is a well-formed tree over all data with finite log_p_one.",
+        text="1600 (thorough 60 000) simulated runs over generated input tables (1-8 mutations, 1-3 samples, clustered or not, identical and zero-depth rows) with options drawn boundary-biased from what the CLI accepts (1 particle, threshold 0/1, outlier probability up to 1.0, subtree probability 1, 1 iteration, chains 1-3), a quarter through the click command: no exception may escape, every entry is a well-formed tree over all data with finite log_p_one. A fifth of unclustered inputs also hold rows the loader must set aside (major copy number 0 in some sample, mutation absent from a sample, duplicated id); the mutations a run loads are compared with the input's. Systematic runs with 31-300 (thorough up to 1025) mutations and a few at grids of 1000-1024 points.",
         note="Cost cap per run keeps runs short, so large iterations x particles x data products are not reached. Chains run in-process under the simulated executor.",
         ref="4 (C19)"),
 })
@@ -110,7 +110,7 @@ CHECKS.update({
     "C18": dict(
         level="exploration",
         technique=PIPE + "; perturbed chain schedules, simulated worker reuse, and re-execution in fresh interpreters under other PYTHONHASHSEED values",
-        text="For 24 (thorough 400) seeded option sets a canonical execution gives reference per-chain traces; 7 perturbed schedules (start / finish order, all chains inside one forked worker, the OS reporting 1 or 2 cores, seeded assignment) and 2 (4) other hash seeds in fresh interpreters must reproduce per chain the same sequence of trees, labels, alpha, iter and log_p_one (1e-9). Thorough tier also observes the real spawn pool under two hash seeds with and without CPU pinning.",
+        text="For 24 (thorough 400) seeded option sets a canonical execution gives reference per-chain traces; 7 perturbed schedules (start / finish order, all chains inside one forked worker, the OS reporting 1 or 2 cores, seeded assignment) and 2 (4) other hash seeds in fresh interpreters must reproduce per chain the same sequence of trees, labels, alpha, iter and log_p_one (1e-9). Thorough tier also observes the real spawn pool under two hash seeds with and without CPU pinning. Also real single-chain runs on clustered input in fresh interpreters under taskset on 1, 2 and all CPUs with the numerical libraries' thread pools left to size themselves: trace and stored data compared bitwise. Seeds include 0, 2^32-1, 2^63-1; chain counts up to 9.",
         note="One simulated worker is one forked child of the warm simulator (chains on the same worker share its module state); interpreter start-up of spawn workers is observed only in the thorough tier.",
         ref="4 (C18)"),
     "C20": dict(
